@@ -57,6 +57,27 @@ def multibyte_hazards(e: Dict[str, Any]) -> List[str]:
     (convert_regex only rewrites `c?`), or a non-ASCII member of a character
     class (a byte set under byte mode)."""
     out = []
+    # bracket classes as written: the parser also turns an alternation of single characters `(?:-|–)` into a set, and that is an alternation of
+    # byte *sequences* for Hyperscan, which is fine
+    src = e["regex"]
+    written = []
+    i = 0
+    while i < len(src):
+        if src[i] == "\\":
+            i += 2
+            continue
+        if src[i] == "[":
+            j = i + 1
+            if j < len(src) and src[j] == "^":
+                j += 1
+            if j < len(src) and src[j] == "]":
+                j += 1
+            while j < len(src) and src[j] != "]":
+                j += 2 if src[j] == "\\" else 1
+            written.append(src[i:j + 1])
+            i = j + 1
+            continue
+        i += 1
 
     def walk(items):
         for op, av in items:
@@ -72,7 +93,7 @@ def multibyte_hazards(e: Dict[str, Any]) -> List[str]:
                 for o, a in av:
                     if str(o) == "RANGE" and a[1] > 127:
                         members.append(f"{chr(a[0])}-{chr(a[1])}")
-                if members:
+                if members and any(any(ch in w for ch in "".join(members) if ord(ch) > 127) for w in written):
                     out.append("[" + "".join(chr(a) if str(o) == "LITERAL" else "" for o, a in av) + "]")
             elif n == "SUBPATTERN":
                 walk(av[3])
@@ -112,11 +133,14 @@ def rule_patterns(ctx: Ctx, data):
                node=db, mod=tm, witness=witnesses.get(kind))
     seen = set()
     for e, h in hazards:
-        key = (ext_name(e), h)
+        # identified by the edition and the offending fragment (not by a digest of the whole pattern: an unrelated change to the template
+        # variables would make the same defect look new)
+        name = ext_name(e).split("#")[0]
+        key = (name, h)
         if key in seen:
             continue
         seen.add(key)
-        ctx.ob("R-C14-3", f"extractor:{ext_name(e)}/{h}", utf8,
+        ctx.ob("R-C14-3", f"extractor:{name}/{h}", utf8,
                f"`{h}`: a non-ASCII member of a character class / repeated multi-byte literal becomes a byte set / half-character repeat in byte mode "
                "(convert_regex only rewrites `c?`); Hyperscan under-reports where Python matches", mod=tm, statement=e["regex"][:160],
                witness="Pub. L. 107-56, §§ 2 et seq." if "Pub" in e["regex"] else None)
